@@ -265,8 +265,10 @@ def is_async_call(func):
 
 # other_params: None means cannot be called with keyword arguments only
 # any means any name is good
+# required_kwonly: keyword-only parameters with no default; if there are any the
+# function cannot be called with positional arguments only
 SignatureInfo = namedtuple('SignatureInfo', 'min_args max_args '
-                           'required_names other_names')
+                           'required_names other_names required_kwonly')
 
 
 def signature_info(func):
@@ -274,6 +276,7 @@ def signature_info(func):
     min_args = max_args = 0
     required_names = []
     other_names = []
+    required_kwonly = []
     no_names = False
     for p in params.values():
         if p.kind == p.POSITIONAL_OR_KEYWORD:
@@ -284,7 +287,11 @@ def signature_info(func):
             else:
                 other_names.append(p.name)
         elif p.kind == p.KEYWORD_ONLY:
-            other_names.append(p.name)
+            if p.default is p.empty:
+                required_names.append(p.name)
+                required_kwonly.append(p.name)
+            else:
+                other_names.append(p.name)
         elif p.kind == p.VAR_POSITIONAL:
             max_args = None
         elif p.kind == p.VAR_KEYWORD:
@@ -298,4 +305,5 @@ def signature_info(func):
     if no_names:
         other_names = None
 
-    return SignatureInfo(min_args, max_args, required_names, other_names)
+    return SignatureInfo(min_args, max_args, required_names, other_names,
+                         required_kwonly)
